@@ -393,6 +393,42 @@ impl<'a> Hist<'a> {
                 };
                 self.out.fact("C07", "txroot-matches-spec", root_ok, if tip908 { "tip908" } else { "pre-tip908" });
                 self.out.fact("C07", "tx-membership-provable", proofs_ok, if tip908 { "tip908" } else { "pre-tip908" });
+                // the position accessor: a block transaction's position is its rank among the block's hashes, and a hash
+                // that is not in the block has none (the zero hash, the largest hash, a transaction's hash off by one bit
+                // at either end, the signature-carrying hash)
+                {
+                    let mut hashes: Vec<[u8; 32]> = txs.iter().map(|t| t.hash_nosigs().0 .0).collect();
+                    hashes.sort();
+                    hashes.dedup();
+                    let mut bad: Vec<String> = vec![];
+                    for (i, h) in hashes.iter().enumerate() {
+                        let got = sealed.transaction_sorted_posn(TxHash(tmelcrypt::HashVal(*h)));
+                        if got != Some(i) {
+                            bad.push(format!("present {} at rank {} answered {:?}", hx(&h[..4]), i, got));
+                        }
+                    }
+                    let mut absent: Vec<[u8; 32]> = vec![[0u8; 32], [0xffu8; 32], tmelcrypt::hash_single(b"no such transaction").0];
+                    for t in txs.iter().take(6) {
+                        let h = t.hash_nosigs().0 .0;
+                        let mut a = h;
+                        a[31] ^= 1;
+                        absent.push(a);
+                        let mut b = h;
+                        b[0] ^= 0x80;
+                        absent.push(b);
+                        absent.push(tmelcrypt::hash_single(&stdcode::serialize(t).unwrap()).0);
+                    }
+                    for a in absent {
+                        if hashes.contains(&a) {
+                            continue;
+                        }
+                        let got = sealed.transaction_sorted_posn(TxHash(tmelcrypt::HashVal(a)));
+                        if got.is_some() {
+                            bad.push(format!("absent {} answered {:?}", hx(&a[..4]), got));
+                        }
+                    }
+                    self.out.fact("C07", "tx-position-is-rank-absent-has-none", bad.is_empty(), &bad.join("; "));
+                }
                 // every coin and pool of the sealed state is provable against the header's roots; an absent key is provably absent
                 let mut prov_ok = true;
                 {
